@@ -22,7 +22,7 @@ def ret_paths(ctx, b, include_panic=False):
 
 def sizeof_T_sites(ctx):
     out = []
-    for key, b in ctx.facts.bodies.items():
+    for key, b in list(ctx.facts.bodies.items()) + list(ctx.facts.consts.items()):
         for bb, t in b.all_calls():
             fn = t.get('fn')
             if fn and canon(fn['path']) == 'std::mem::size_of':
